@@ -63,39 +63,126 @@ theorem seqAppend_end_nonadd (d : List Op) (e : Op) (hadd : e.isAdd = false)
     have : d = (x :: rest).reverse := by rw [← hr]; simp
     rw [this]; simp
 
+/-! ### the syntactic discipline of a sequence diff (needed for well-formedness, C11) -/
+
+/-- an entry carries a non-empty payload -/
+def okEntry : Op → Bool
+  | .addrange _ vs => !vs.isEmpty
+  | .addchars _ cs => !cs.isEmpty
+  | .removerange _ n => decide (1 ≤ n)
+  | .patchI _ dd => !dd.isEmpty
+  | _ => false
+
+/-- consecutive entries: keys increase; the only pair allowed on one key is an insertion followed by a
+    removal / patch -/
+def stepOK (e1 e2 : Op) : Prop := e1.idx < e2.idx ∨ (e1.idx = e2.idx ∧ e1.isAdd = true ∧ e2.isAdd = false)
+
+def ChainOK : List Op → Prop
+  | [] => True
+  | [_] => True
+  | e1 :: e2 :: rest => stepOK e1 e2 ∧ ChainOK (e2 :: rest)
+
+def Strict (di : List Op) : Prop := (∀ e ∈ di, okEntry e = true) ∧ ChainOK di
+
+theorem Strict.nil : Strict [] := ⟨by simp, trivial⟩
+
+theorem ChainOK.snoc : ∀ {di : List Op} {e : Op}, ChainOK di → (∀ o ∈ di, stepOK o e) → ChainOK (di ++ [e])
+  | [], _, _, _ => trivial
+  | [x], e, _, hl => ⟨hl x (by simp), trivial⟩
+  | x :: y :: rest, e, h, hl => by
+      obtain ⟨h1, h2⟩ := h
+      exact ⟨h1, ChainOK.snoc (di := y :: rest) h2 (fun o ho => hl o (List.mem_cons_of_mem _ ho))⟩
+
+theorem Strict.snoc {di : List Op} {e : Op} (h : Strict di) (he : okEntry e = true) (hl : ∀ o ∈ di, stepOK o e) :
+    Strict (di ++ [e]) := by
+  refine ⟨?_, h.2.snoc hl⟩
+  intro x hx
+  simp only [List.mem_append, List.mem_singleton] at hx
+  rcases hx with hx | rfl
+  · exact h.1 x hx
+  · exact he
+
+theorem run_entry_le {α} : ∀ (ops : List (POp α)) (t : Nat) (xs : List α), ∀ p ∈ ops, p.key + p.eat ≤ (Abs.run ops t xs).2
+  | [], _, _, p, hp => by cases hp
+  | e :: es, t, xs, p, hp => by
+      simp only [Abs.run]
+      simp only [List.mem_cons] at hp
+      rcases hp with rfl | hp
+      · have := run_cursor_ge es (max t (p.key + p.eat)) xs
+        omega
+      · exact run_entry_le es _ xs p hp
+
+/-- the entries that are not insertions end at or before the cursor, hence start before it -/
+theorem denotes_nonadd_lt {P : J → List Op → J → Prop} {A : List J} {di : List Op} {pops : List (POp J)} {i : Nat}
+    (hd : Denotes P A di pops) (hs : ∀ e ∈ di, okEntry e = true) (hc : ∀ p ∈ pops, p.key + p.eat ≤ i) :
+    ∀ o ∈ di, o.isAdd = false → o.idx < i := by
+  induction hd with
+  | nil => intro o ho; cases ho
+  | add k vs _ ih =>
+    intro o ho hna
+    simp only [List.mem_cons] at ho
+    rcases ho with rfl | ho
+    · simp [Op.isAdd] at hna
+    · exact ih (fun e he => hs e (List.mem_cons_of_mem _ he)) (fun p hp => hc p (List.mem_cons_of_mem _ hp)) o ho hna
+  | rem k n _ ih =>
+    intro o ho hna
+    simp only [List.mem_cons] at ho
+    rcases ho with rfl | ho
+    · have h1 := hs (.removerange k n) List.mem_cons_self
+      have h2 := hc (.rem k n) List.mem_cons_self
+      simp only [okEntry, decide_eq_true_eq] at h1
+      simp only [POp.key, POp.eat] at h2
+      simp only [Op.idx]; omega
+    · exact ih (fun e he => hs e (List.mem_cons_of_mem _ he)) (fun p hp => hc p (List.mem_cons_of_mem _ hp)) o ho hna
+  | pat k dd v new _ _ _ ih =>
+    intro o ho hna
+    simp only [List.mem_cons] at ho
+    rcases ho with rfl | ho
+    · have h2 := hc (.pat k new) List.mem_cons_self
+      simp only [POp.key, POp.eat] at h2
+      simp only [Op.idx]; omega
+    · exact ih (fun e he => hs e (List.mem_cons_of_mem _ he)) (fun p hp => hc p (List.mem_cons_of_mem _ hp)) o ho hna
+
 /-- The state of a model diff under construction (see `Abs.Built`): `di` denotes abstract
-    entries that have rebuilt `B.take j` from `A` up to base position `i`, and every key in `di`
-    is at most `kb`. -/
+    entries that have rebuilt `B.take j` from `A` up to base position `i`, every key in `di`
+    is at most `kb`, and `di` obeys the syntactic discipline `Strict`. -/
 def BuiltM (P : J → List Op → J → Prop) (A B : List J) (di : List Op) (i j kb : Nat) : Prop :=
-  ∃ pops, Denotes P A di pops ∧ BuiltC A B pops i j ∧ ∀ o ∈ di, o.idx ≤ kb
+  ∃ pops, Denotes P A di pops ∧ BuiltC A B pops i j ∧ (∀ o ∈ di, o.idx ≤ kb) ∧ Strict di
 
 variable {P : J → List Op → J → Prop}
 
 theorem BuiltM.init (A B : List J) : BuiltM P A B [] 0 0 0 :=
-  ⟨[], .nil, BuiltC.init A B, by simp⟩
+  ⟨[], .nil, BuiltC.init A B, by simp, Strict.nil⟩
 
 theorem BuiltM.mono {A B : List J} {di : List Op} {i j kb kb' : Nat} (h : BuiltM P A B di i j kb)
     (hk : kb ≤ kb') : BuiltM P A B di i j kb' := by
-  obtain ⟨p, h1, h2, h3⟩ := h
-  exact ⟨p, h1, h2, fun o ho => Nat.le_trans (h3 o ho) hk⟩
+  obtain ⟨p, h1, h2, h3, h4⟩ := h
+  exact ⟨p, h1, h2, fun o ho => Nat.le_trans (h3 o ho) hk, h4⟩
 
 /-- a finished construction: `patch_list` turns `A` into `B` -/
 theorem BuiltM.done {A B : List J} {di : List Op} {kb : Nat}
     (h : BuiltM PatchRel A B di A.length B.length kb) : patchList A di 0 = .ok B := by
-  obtain ⟨p, h1, h2, _⟩ := h
+  obtain ⟨p, h1, h2, _, _⟩ := h
   rw [patchList_denotes A di p 0 h1, Built.done A B p h2.1]
 
 /-- a finished construction, for any item relation: ordered in-bounds entries that rebuild `B` -/
 theorem BuiltM.done' {A B : List J} {di : List Op} {kb : Nat}
     (h : BuiltM P A B di A.length B.length kb) :
     ∃ pops, Denotes P A di pops ∧ ChainFrom A.length 0 pops ∧ pf pops 0 A = B := by
-  obtain ⟨p, h1, h2, _⟩ := h
+  obtain ⟨p, h1, h2, _, _⟩ := h
   exact ⟨p, h1, h2.2, Built.done A B p h2.1⟩
+
+/-- the same, with the syntactic discipline -/
+theorem BuiltM.done_strict {A B : List J} {di : List Op} {kb : Nat}
+    (h : BuiltM P A B di A.length B.length kb) :
+    ∃ pops, Denotes P A di pops ∧ ChainFrom A.length 0 pops ∧ pf pops 0 A = B ∧ Strict di := by
+  obtain ⟨p, h1, h2, _, h4⟩ := h
+  exact ⟨p, h1, h2.2, Built.done A B p h2.1, h4⟩
 
 theorem BuiltM.keep {A B : List J} {di : List Op} {i j kb : Nat} (h : BuiltM P A B di i j kb)
     (hi : i < A.length) (hj : j < B.length) (heq : A[i] = B[j]) : BuiltM P A B di (i + 1) (j + 1) kb := by
-  obtain ⟨p, h1, h2, h3⟩ := h
-  exact ⟨p, h1, BuiltC.keep A B p i j h2 hi hj heq, h3⟩
+  obtain ⟨p, h1, h2, h3, h4⟩ := h
+  exact ⟨p, h1, BuiltC.keep A B p i j h2 hi hj heq, h3, h4⟩
 
 /-- `seqPatch` for an aligned pair whose sub-diff patches `A[i]` into `B[j]` -/
 theorem BuiltM.patch {A B : List J} {di : List Op} {i j kb : Nat} (h : BuiltM P A B di i j kb)
@@ -107,13 +194,13 @@ theorem BuiltM.patch {A B : List J} {di : List Op} {i j kb : Nat} (h : BuiltM P 
   · have : cd = [] := by simpa using hc
     simp only [hc, if_true]
     exact (h.keep hi hj (hnil this)).mono hkb
-  · obtain ⟨p, h1, h2, h3⟩ := h
+  · obtain ⟨p, h1, h2, h3, h4⟩ := h
     simp only [hc, Bool.false_eq_true, if_false]
     rw [seqAppend_end_nonadd di (.patchI i cd) rfl (fun o ho => by
       have := h3 o ho
       show o.idx ≤ i
       omega)]
-    refine ⟨p ++ [.pat i B[j]], h1.append (.pat i cd A[i] B[j] (by simp [hi]) hp .nil), ?_, ?_⟩
+    refine ⟨p ++ [.pat i B[j]], h1.append (.pat i cd A[i] B[j] (by simp [hi]) hp .nil), ?_, ?_, ?_⟩
     · have := BuiltC.push A B p i j (.pat i B[j]) h2 rfl (by
         simp only [POp.out, List.length_singleton]
         rw [slice'_succ B j hj]) (by simp [POp.out]; omega) (by simp [POp.eat]; omega)
@@ -123,6 +210,18 @@ theorem BuiltM.patch {A B : List J} {di : List Op} {i j kb : Nat} (h : BuiltM P 
       rcases ho with ho | rfl
       · have := h3 o ho; omega
       · simp [Op.idx]
+    · -- the new patch entry follows every earlier one
+      have hcur : ∀ q ∈ p, q.key + q.eat ≤ i := fun q hq =>
+        Nat.le_trans (run_entry_le p 0 A q hq) h2.1.1
+      have hna := denotes_nonadd_lt h1 h4.1 hcur
+      refine h4.snoc (by simpa [okEntry] using hc) (fun o ho => ?_)
+      cases hadd : o.isAdd with
+      | false => exact Or.inl (by simpa [Op.idx] using hna o ho hadd)
+      | true =>
+        have hle : o.idx ≤ i := by have := h3 o ho; omega
+        by_cases hlt : o.idx < i
+        · exact Or.inl (by simpa [Op.idx] using hlt)
+        · exact Or.inr ⟨by show o.idx = i; omega, hadd, rfl⟩
 
 /-- the gap before an aligned run: `n` base items removed and `vs` inserted at base position `i`
     (the builder puts the addrange in front of the removerange) -/
@@ -130,7 +229,7 @@ theorem BuiltM.gap {A B : List J} {di : List Op} {i j kb : Nat} (h : BuiltM P A 
     (hkb : kb < i ∨ di = []) (n : Nat) (vs : List J) (hvs : vs = slice' B j (j + vs.length))
     (hjb : j + vs.length ≤ B.length) (hN : i + n ≤ A.length) :
     BuiltM P A B (seqAddrange (seqRemoverange di i n) i vs) (i + n) (j + vs.length) i := by
-  obtain ⟨p, h1, h2, h3⟩ := h
+  obtain ⟨p, h1, h2, h3, h4⟩ := h
   have hlt : ∀ o ∈ di, o.idx < i := by
     intro o ho
     rcases hkb with hkb | hkb
@@ -143,10 +242,10 @@ theorem BuiltM.gap {A B : List J} {di : List Op} {i j kb : Nat} (h : BuiltM P A 
       subst hv'
       simp only [seqRemoverange, seqAddrange, beq_self_eq_true, if_true, List.isEmpty_nil,
         List.length_nil, Nat.add_zero]
-      exact ⟨p, h1, h2, fun o ho => Nat.le_of_lt (hlt o ho)⟩
+      exact ⟨p, h1, h2, fun o ho => Nat.le_of_lt (hlt o ho), h4⟩
     · simp only [seqRemoverange, seqAddrange, beq_self_eq_true, if_true, hv, Bool.false_eq_true, if_false]
       rw [seqAppend_end di (.addrange i vs) (by simpa [Op.idx] using hlt)]
-      refine ⟨p ++ [.add i vs], h1.append (.add i vs .nil), ?_, ?_⟩
+      refine ⟨p ++ [.add i vs], h1.append (.add i vs .nil), ?_, ?_, ?_⟩
       · have := BuiltC.push A B p i j (.add i vs) h2 rfl (by simpa [POp.out] using hvs) (by simpa [POp.out] using hjb)
           (by simp [POp.eat]; omega)
         simpa [POp.eat, POp.out] using this
@@ -155,6 +254,7 @@ theorem BuiltM.gap {A B : List J} {di : List Op} {i j kb : Nat} (h : BuiltM P A 
         rcases ho with ho | rfl
         · exact Nat.le_of_lt (hlt o ho)
         · simp [Op.idx]
+      · exact h4.snoc (by simpa [okEntry] using hv) (fun o ho => Or.inl (by simpa [Op.idx] using hlt o ho))
   · have hrem : seqRemoverange di i n = di ++ [.removerange i n] := by
       simp only [seqRemoverange, beq_iff_eq, hn, if_false]
       exact seqAppend_end di _ (by simpa [Op.idx] using hlt)
@@ -162,7 +262,7 @@ theorem BuiltM.gap {A B : List J} {di : List Op} {i j kb : Nat} (h : BuiltM P A 
     · have hv' : vs = [] := by simpa using hv
       subst hv'
       simp only [hrem, seqAddrange, List.isEmpty_nil, if_true, List.length_nil, Nat.add_zero]
-      refine ⟨p ++ [.rem i n], h1.append (.rem i n .nil), ?_, ?_⟩
+      refine ⟨p ++ [.rem i n], h1.append (.rem i n .nil), ?_, ?_, ?_⟩
       · have := BuiltC.push A B p i j (.rem i n) h2 rfl (by simp [POp.out, slice'_self]) (by simp [POp.out]; omega)
           (by simpa [POp.eat] using hN)
         simpa [POp.eat, POp.out] using this
@@ -171,9 +271,10 @@ theorem BuiltM.gap {A B : List J} {di : List Op} {i j kb : Nat} (h : BuiltM P A 
         rcases ho with ho | rfl
         · exact Nat.le_of_lt (hlt o ho)
         · simp [Op.idx]
+      · exact h4.snoc (by simp [okEntry]; omega) (fun o ho => Or.inl (by simpa [Op.idx] using hlt o ho))
     · simp only [hrem, seqAddrange, hv, Bool.false_eq_true, if_false]
       rw [seqAppend_add_before_rem di i n vs hlt]
-      refine ⟨p ++ [.add i vs] ++ [.rem i n], ?_, ?_, ?_⟩
+      refine ⟨p ++ [.add i vs] ++ [.rem i n], ?_, ?_, ?_, ?_⟩
       · have := (h1.append (.add i vs .nil)).append (.rem i n (P := P) (A := A) .nil)
         simpa [List.append_assoc] using this
       · have s1 := BuiltC.push A B p i j (.add i vs) h2 rfl (by simpa [POp.out] using hvs) (by simpa [POp.out] using hjb)
@@ -188,5 +289,14 @@ theorem BuiltM.gap {A B : List J} {di : List Op} {i j kb : Nat} (h : BuiltM P A 
         · exact Nat.le_of_lt (hlt o ho)
         · simp [Op.idx]
         · simp [Op.idx]
+      · have s1 : Strict (di ++ [.addrange i vs]) :=
+          h4.snoc (by simpa [okEntry] using hv) (fun o ho => Or.inl (by simpa [Op.idx] using hlt o ho))
+        have s2 : Strict (di ++ [.addrange i vs] ++ [.removerange i n]) :=
+          s1.snoc (by simp [okEntry]; omega) (fun o ho => by
+            simp only [List.mem_append, List.mem_singleton] at ho
+            rcases ho with ho | rfl
+            · exact Or.inl (by simpa [Op.idx] using hlt o ho)
+            · exact Or.inr ⟨rfl, rfl, rfl⟩)
+        simpa [List.append_assoc] using s2
 
 end Nbdime
